@@ -3,6 +3,11 @@
 // function it replaces by a `//verif:stub <ssa name>` directive.
 package zzverif
 
+import (
+	"context"
+	"time"
+)
+
 // Err models cockroachdb/errors values: a message and a cause chain.
 type Err struct {
 	Msg    string
@@ -96,4 +101,61 @@ func ErrUnwrap(err error) error {
 		return nil
 	}
 	return u.Unwrap()
+}
+
+// ---- context model: a tree with cancellation flags and values ----
+
+// Ctx models a derived context.  Done() returns nil: sequential code never
+// selects on it in the encoded functions.
+type Ctx struct {
+	Parent    context.Context
+	Cancelled bool
+	Key, Val  any
+	HasVal    bool
+}
+
+var ErrCanceled error = &Err{Msg: "context canceled"}
+
+func (c *Ctx) Deadline() (time.Time, bool) { return time.Time{}, false }
+func (c *Ctx) Done() <-chan struct{}       { return nil }
+func (c *Ctx) Err() error {
+	if c.Cancelled {
+		return ErrCanceled
+	}
+	if c.Parent != nil {
+		return c.Parent.Err()
+	}
+	return nil
+}
+func (c *Ctx) Value(key any) any {
+	if c.HasVal && c.Key == key {
+		return c.Val
+	}
+	if c.Parent != nil {
+		return c.Parent.Value(key)
+	}
+	return nil
+}
+
+//verif:stub context.WithCancel
+func CtxWithCancel(parent context.Context) (context.Context, context.CancelFunc) {
+	c := &Ctx{Parent: parent}
+	return c, func() { c.Cancelled = true }
+}
+
+//verif:stub context.WithTimeout
+func CtxWithTimeout(parent context.Context, _ time.Duration) (context.Context, context.CancelFunc) {
+	c := &Ctx{Parent: parent}
+	return c, func() { c.Cancelled = true }
+}
+
+//verif:stub context.WithDeadline
+func CtxWithDeadline(parent context.Context, _ time.Time) (context.Context, context.CancelFunc) {
+	c := &Ctx{Parent: parent}
+	return c, func() { c.Cancelled = true }
+}
+
+//verif:stub context.WithValue
+func CtxWithValue(parent context.Context, key, val any) context.Context {
+	return &Ctx{Parent: parent, Key: key, Val: val, HasVal: true}
 }
